@@ -384,11 +384,31 @@ pub fn run(v: &Value) -> Value {
                 tokio::time::sleep(std::time::Duration::from_millis(ms)).await;
                 busy.store(atomic, std::sync::atomic::Ordering::SeqCst);
                 wake.notify_one();
-                quiet(40, 2000).await;
+                {
+                    let t0 = std::time::Instant::now();
+                    while risinglight::verif::sched::parked().is_empty() && t0.elapsed().as_millis() < 3000 {
+                        for _ in 0..64 {
+                            tokio::task::yield_now().await;
+                        }
+                        std::thread::sleep(std::time::Duration::from_millis(1));
+                    }
+                }
                 outs.push(json!({"parked": risinglight::verif::sched::parked().iter().map(|(_, n)| n.clone()).collect::<Vec<_>>()}));
             } else if let Some(prefix) = step["release"].as_str() {
                 let r = risinglight::verif::sched::release(prefix);
-                quiet(40, 2000).await;
+                // the released task runs on to its next schedule point (every compactor pass ends at
+                // "compactor.pass_end"): wait until it is parked again
+                if r.as_deref().is_some_and(|n| !n.ends_with("pass_end")) {
+                    let t0 = std::time::Instant::now();
+                    while risinglight::verif::sched::parked().is_empty() && t0.elapsed().as_millis() < 8000 {
+                        for _ in 0..64 {
+                            tokio::task::yield_now().await;
+                        }
+                        std::thread::sleep(std::time::Duration::from_millis(1));
+                    }
+                } else {
+                    quiet(40, 2000).await;
+                }
                 outs.push(json!({"released": r, "parked": risinglight::verif::sched::parked().iter().map(|(_, n)| n.clone()).collect::<Vec<_>>()}));
             } else if let Some(sp) = step.get("spawn") {
                 // start a statement as its own task; it is joined by a later step
@@ -407,7 +427,18 @@ pub fn run(v: &Value) -> Value {
                     }
                 });
                 pending.insert(name.to_string(), h);
-                quiet(40, step["wait_ms"].as_u64().unwrap_or(1500)).await;
+                // wait until the statement has finished, or nothing has moved for idle_ms (it is blocked)
+                {
+                    let t0 = std::time::Instant::now();
+                    let idle = step["idle_ms"].as_u64().unwrap_or(40);
+                    let max = step["wait_ms"].as_u64().unwrap_or(1500);
+                    while !pending.get(name).map(|h| h.is_finished()).unwrap_or(true) && (t0.elapsed().as_millis() as u64) < idle.min(max) {
+                        for _ in 0..64 {
+                            tokio::task::yield_now().await;
+                        }
+                        std::thread::sleep(std::time::Duration::from_millis(1));
+                    }
+                }
                 let done = pending.get(name).map(|h| h.is_finished()).unwrap_or(false);
                 outs.push(json!({"spawned": name, "finished": done}));
             } else if let Some(name) = step["join"].as_str() {
